@@ -87,6 +87,21 @@ theorem C15_sequence (ls : List Loader) :
       c = ls.filter (·.cls.isPlain) :=
   ⟨loaderSeq_perm ls, _, _, _, rfl, sortByKey_perm _, sortByKey_sorted _, sortByKey_perm _, sortByKey_sorted _, rfl⟩
 
+/-- THE LOADER SEQUENCE IS DETERMINED, for every number of loaders: when no two priority loaders and no two ordered
+    loaders have the same Order(), ANY arrangement that meets the description of `C15_sequence` (priority class
+    ascending, ordered class ascending, the rest as added) is the model's `loaderSeq` — so the sequence does not
+    depend on the sorting algorithm (Go's sort.Slice switches from insertion sort to pdqsort at 13 elements;
+    only the placement of EQUAL Order() values, on which the property is silent, can differ). -/
+theorem C15_sequence_determined (ls a b c : List Loader)
+    (hdp : (ls.filter (·.cls.isPrio)).Pairwise (fun x y => x.cls.key ≠ y.cls.key))
+    (hdo : (ls.filter (·.cls.isOrd)).Pairwise (fun x y => x.cls.key ≠ y.cls.key))
+    (ha : a.Perm (ls.filter (·.cls.isPrio))) (has : a.Pairwise (fun x y => x.cls.key ≤ y.cls.key))
+    (hb : b.Perm (ls.filter (·.cls.isOrd))) (hbs : b.Pairwise (fun x y => x.cls.key ≤ y.cls.key))
+    (hc : c = ls.filter (·.cls.isPlain)) :
+    a ++ b ++ c = loaderSeq ls := by
+  rw [sortByKey_unique _ a hdp ha has, sortByKey_unique _ b hdo hb hbs, hc]
+  rfl
+
 /-- Files (and any priority loaders with one common Order()) are read in the order in which they were added:
     with only FileLoaders in the priority class the sequence is files, then ordered, then the rest. -/
 theorem C15_files_keep_order (ls : List Loader) (k : Int) (h : ∀ l ∈ ls, l.cls.isPrio = true → l.cls.key = k) :
@@ -184,6 +199,19 @@ example : (loaderSeq (applyOptions [.setLoaders [lRaw 1 e0], .setConfig (fileLoa
 example : (loaderSeq [⟨1, .plain, .empty⟩, ⟨2, .prio 0, .empty⟩, ⟨3, .ord (-1), .empty⟩, ⟨4, .prio 0, .empty⟩,
     ⟨5, .prio (-2), .empty⟩, ⟨6, .plain, .empty⟩, ⟨7, .ord (-1), .empty⟩]).map (·.id) = [5, 2, 4, 3, 7, 1, 6] := by decide
 -- C15_add_keeps / C15_set_replaces on the default configure
+/-- non-vacuity of C15_sequence_determined: 14 priority loaders with pairwise different orders added in a scrambled
+    order between plain ones; the hypotheses hold and the sequence is the ascending one -/
+def manyLs : List Loader :=
+  [⟨1, .plain, .empty⟩, ⟨2, .prio 5, .empty⟩, ⟨3, .prio (-7), .empty⟩, ⟨4, .prio 3, .empty⟩, ⟨5, .prio 9, .empty⟩,
+   ⟨6, .plain, .empty⟩, ⟨7, .prio 8, .empty⟩, ⟨8, .prio (-2), .empty⟩, ⟨9, .prio 6, .empty⟩, ⟨10, .ord 1, .empty⟩,
+   ⟨11, .prio (-5), .empty⟩, ⟨12, .prio (-1), .empty⟩, ⟨13, .prio 7, .empty⟩, ⟨14, .prio 2, .empty⟩, ⟨15, .plain, .empty⟩,
+   ⟨16, .prio (-6), .empty⟩, ⟨17, .prio 4, .empty⟩, ⟨18, .prio 0, .empty⟩, ⟨19, .ord (-1), .empty⟩, ⟨20, .plain, .empty⟩]
+example : ((manyLs.filter (·.cls.isPrio)).length = 14) ∧
+    decide ((manyLs.filter (·.cls.isPrio)).Pairwise (fun x y => x.cls.key ≠ y.cls.key)) = true ∧
+    decide ((manyLs.filter (·.cls.isOrd)).Pairwise (fun x y => x.cls.key ≠ y.cls.key)) = true ∧
+    (loaderSeq manyLs).map (·.id) = [3, 16, 11, 8, 12, 18, 14, 4, 17, 2, 9, 13, 7, 5, 19, 10, 1, 6, 15, 20] := by
+  decide
+
 example : (applyOptions [.addLoaders [lRaw 1 e0], .setConfig (fileLoader 2 (.doc e1)), .configureAdd [lRaw 3 e2]]).map (·.id)
     = [0, 1, 2, 3] := by decide
 example : (applyOptions [.addLoaders [lRaw 1 e0], .setLoaders [lRaw 3 e2]]).map (·.id) = [3] := by decide
